@@ -6,7 +6,7 @@ from props import _family as F
 PROOF_MODULES = ['Jwt.Props.C13']
 PROP_MODULES = ['Jwt.Props.C13']
 PROP_FILES = ['Jwt/Props/C13.lean']
-GENERATED_FACT_THEOREMS = 0
+GENERATED_FACT_THEOREMS = 3
 CHECKER_CMD = "cd lean && lake build Jwt.Props.C13 && lake env lean <generated #print axioms file>"
 LEVEL_TEXT = ("Lean theorems: one call's return value is independent of the prior error state and leaves the configuration unchanged; by induction over any history of verify/error_clear calls every verdict equals a fresh identically configured checker's; the same for generate on builders (token and configuration). Tied to the code by exhaustive call sequences over an 11-token alphabet + error_clear, each verdict compared with a fresh checker's on the real library.")
 ASSUMPTIONS = F.COMMON_ASSUME + []
